@@ -229,6 +229,8 @@ class CNode(object):
             return None if v is None else -v
         if n.kind == "CharacterLiteral":
             return int(n.value)
+        if n.kind == "DeclRefExpr" and n.refkind == "EnumConstantDecl":
+            return self.tu.enum_value(n.ref)      # enumerators declared in the analysed file itself
         return None
 
     def strval(self):
@@ -280,6 +282,35 @@ class TU(object):
                 if n.kind in UNSUPPORTED:
                     raise AnalysisError("%s:%s: unsupported statement kind %s in %s (the structured CFG builder "
                                         "does not model it)" % (relpath, n.line, n.kind, f.name))
+
+    def enum_value(self, name):
+        """value of an enumerator declared in this source file (None for enumerators of system headers)"""
+        ev = getattr(self, "_enums", None)
+        if ev is None:
+            ev = {}
+            clean = re.sub(r"/\*.*?\*/|//[^\n]*", " ", self.text, flags=re.S)
+            for m_ in re.finditer(r"\benum\b[^{;]*\{([^}]*)\}", clean):
+                val = -1
+                for item in m_.group(1).split(","):
+                    item = item.strip()
+                    if not item:
+                        continue
+                    if "=" in item:
+                        nm, ex = [x.strip() for x in item.split("=", 1)]
+                        try:
+                            val = int(ex, 0)
+                        except ValueError:
+                            if ex in ev:
+                                val = ev[ex]
+                            else:
+                                val = None
+                    else:
+                        nm = item
+                        val = None if val is None else val + 1
+                    if re.fullmatch(r"[A-Za-z_][A-Za-z_0-9]*", nm) and val is not None:
+                        ev[nm] = val
+            self._enums = ev
+        return ev.get(name)
 
     def line_of(self, off):
         return bisect.bisect_right(self._starts, off)
@@ -342,7 +373,7 @@ def _includes(repo, ext):
 _CACHE = {}
 
 
-def parse(relpath, prefix, repo=None, ext=False):
+def parse(relpath, prefix, repo=None, ext=False, allow_empty=False):
     """Parse one C file of the repository; returns a TU.  Raises AnalysisError on any front-end problem."""
     repo = repo or REPO
     path = os.path.join(repo, relpath)
@@ -386,7 +417,7 @@ def parse(relpath, prefix, repo=None, ext=False):
         except OSError:
             pass
     tu = TU(relpath, docs, raw.decode("utf-8", "replace"))
-    if not tu.functions:
+    if not tu.functions and not allow_empty:
         raise AnalysisError("no function definitions matching %r found in %s" % (prefix, relpath))
     _CACHE[key] = tu
     return tu
@@ -429,6 +460,12 @@ def discover_functions(text):
     return names
 
 
+def discover_tables(text):
+    """names of file-scope constant arrays with an initialiser (`static const T name[..] = {`), e.g. tables of attribute names"""
+    import re
+    return list(dict.fromkeys(re.findall(r"^static\s+const\s+[^;=(){}]*?\b([A-Za-z_][A-Za-z_0-9]*)\s*\[[^\]]*\]\s*=\s*\{", text, flags=re.M)))
+
+
 def parse_all(relpath, repo=None, ext=False):
     """All function definitions of one C file (one filtered clang dump per discovered name, in parallel, cached)."""
     from concurrent.futures import ThreadPoolExecutor
@@ -451,8 +488,16 @@ def parse_all(relpath, repo=None, ext=False):
             if "no function definitions matching" in str(e):
                 return None  # a macro that expands to a definition (MOD_INIT(name)): found under its real name or skipped
             raise
+    tables = discover_tables(text)
+
+    def one_table(n):
+        try:
+            return parse(relpath, n, repo, ext, allow_empty=True)
+        except AnalysisError:
+            return None
     with ThreadPoolExecutor(max_workers=16) as ex:
         tus = [t for t in ex.map(one, names) if t is not None]
+        ttus = [t for t in ex.map(one_table, tables) if t is not None]
     if not tus:
         raise AnalysisError("clang returned no function definition for %s" % relpath)
     m = TU.__new__(TU)
@@ -463,6 +508,8 @@ def parse_all(relpath, repo=None, ext=False):
     m.protos = {}
     m.records = {}
     m.vars = {}
+    for t in ttus:
+        m.vars.update(t.vars)
     for t in tus:
         for k, v in t.functions.items():
             m.functions.setdefault(k, v)
